@@ -595,7 +595,11 @@ def Q5(vc):
             state.stream = None
         state.puts.clear(); state.sets.clear(); state.spawns.clear(); state.events.clear(); state.unsignalled.clear()
         state.was_present = state.present
-        return {'streams': streams}
+        # `operator_indexed` is loop-carried: once the operator's readiness has been seen the local is latched to None for the rest
+        # of the stream ("NOT when the readiness is already achieved once") -- an arbitrary iteration sees the given set or None
+        given = loc.get('operator_indexed')
+        latched = given is not None and vc.nondet(2, 'operator_indexed: still the given set / latched to None by an earlier iteration') == 1
+        return {'streams': streams, 'operator_indexed': None if latched else given}
     def invariant(loc):
         return loc.get('streams') is streams or not state.in_loop
 
